@@ -147,8 +147,13 @@ func parent() {
 		if err == nil {
 			break
 		}
-		crashes++
 		idx := lastIdx(*fOut)
+		if ee, ok := err.(*exec.ExitError); ok && ee.ExitCode() == 3 && !killed && idx >= from {
+			// the child recorded a Hang event for history idx and gave up on it
+			from = idx + 1
+			continue
+		}
+		crashes++
 		if idx < from-1 || crashes > 400 {
 			fmt.Fprintf(os.Stderr, "child failed without progress (idx=%d from=%d crashes=%d): %v\n%s\n", idx, from, crashes, err, tail(stderr.String(), 4000))
 			os.Exit(2)
